@@ -548,5 +548,9 @@ def _range_cover(chk, tier):
         asts = [[K('in-range')], [K('out-of-range')], [K('in-range'), K('out-of-range')],
                 [{'cs': [[{'k': 'type', 'ns': gen.BARE, 'name': cps('input')}, {'k': 'not', 'args': [K('in-range'), K('out-of-range')]}]], 'cb': []}]]
         jobs.append(('rc%d' % k, d, asts, [0], None))
-    lines = trace.record_select(jobs)
+    trace.SPELL_SEED = common.SEED + 17      # the texts handed to the real select are random respellings of the ASTs (harness/sel.py)
+    try:
+        lines = trace.record_select(jobs)
+    finally:
+        trace.SPELL_SEED = None
     trace.validate(chk, lines, 'Trace_Select', 'range-cover')
